@@ -294,6 +294,57 @@ static void c_case(uint64_t idx, void *ctx)
     mc_nontrivial();
 }
 
+/* ------------------------------------------------------------------ part D: the twenty table-entry constructors
+ * {BOOL, INT, STR, ARGS, ABST} x {plain, _PP, _LONG, _LONG_PP}: each builds a one-entry table; the entry's fields are compared with what
+ * the macro's name promises, and a pre-parse pass and a normal pass over "--opt=value" must assign in exactly the pass the entry belongs to */
+static unsigned long d_flags; static int d_int; static const char *d_str; static char **d_args; static int d_calls;
+static void d_handler(spif_charptr_t v) { (void) v; d_calls++; }
+static const char *DM[20] = { "SPIFOPT_BOOL", "SPIFOPT_BOOL_PP", "SPIFOPT_BOOL_LONG", "SPIFOPT_BOOL_LONG_PP", "SPIFOPT_INT", "SPIFOPT_INT_PP", "SPIFOPT_INT_LONG", "SPIFOPT_INT_LONG_PP",
+                              "SPIFOPT_STR", "SPIFOPT_STR_PP", "SPIFOPT_STR_LONG", "SPIFOPT_STR_LONG_PP", "SPIFOPT_ARGS", "SPIFOPT_ARGS_PP", "SPIFOPT_ARGS_LONG", "SPIFOPT_ARGS_LONG_PP",
+                              "SPIFOPT_ABST", "SPIFOPT_ABST_PP", "SPIFOPT_ABST_LONG", "SPIFOPT_ABST_LONG_PP" };
+static void d_entry(int i, spifopt_t *e)
+{
+    spifopt_t t[20] = {
+        SPIFOPT_BOOL('o', "opt", "d", d_flags, 0x4), SPIFOPT_BOOL_PP('o', "opt", "d", d_flags, 0x4), SPIFOPT_BOOL_LONG("opt", "d", d_flags, 0x4), SPIFOPT_BOOL_LONG_PP("opt", "d", d_flags, 0x4),
+        SPIFOPT_INT('o', "opt", "d", d_int), SPIFOPT_INT_PP('o', "opt", "d", d_int), SPIFOPT_INT_LONG("opt", "d", d_int), SPIFOPT_INT_LONG_PP("opt", "d", d_int),
+        SPIFOPT_STR('o', "opt", "d", d_str), SPIFOPT_STR_PP('o', "opt", "d", d_str), SPIFOPT_STR_LONG("opt", "d", d_str), SPIFOPT_STR_LONG_PP("opt", "d", d_str),
+        SPIFOPT_ARGS('o', "opt", "d", d_args), SPIFOPT_ARGS_PP('o', "opt", "d", d_args), SPIFOPT_ARGS_LONG("opt", "d", d_args), SPIFOPT_ARGS_LONG_PP("opt", "d", d_args),
+        SPIFOPT_ABST('o', "opt", "d", d_handler), SPIFOPT_ABST_PP('o', "opt", "d", d_handler), SPIFOPT_ABST_LONG("opt", "d", d_handler), SPIFOPT_ABST_LONG_PP("opt", "d", d_handler),
+    };
+    *e = t[i];
+}
+static void d_desc(uint64_t idx, void *ctx, char *b, size_t n) { (void) ctx; snprintf(b, n, "one-entry table built with %s: fields, then prog [%s] in a %s pass", DM[idx / 4], (idx / 2) % 2 ? "-o 1" : "--opt=1", idx % 2 ? "pre-parse" : "normal"); }
+static void d_case(uint64_t idx, void *ctx)
+{
+    int mi = (int) (idx / 4), shortform = (int) ((idx / 2) % 2), pp_pass = (int) (idx % 2), kind = mi / 4, variant = mi % 4; (void) ctx;
+    int is_pp = variant & 1, is_long = variant >= 2;
+    const char *shape = DM[mi]; mc_set_shape(shape);
+    static spifopt_t one[1]; d_entry(mi, &one[0]);
+    static const unsigned long TYPE[5] = { SPIFOPT_FLAG_BOOLEAN, SPIFOPT_FLAG_INTEGER, SPIFOPT_FLAG_STRING, SPIFOPT_FLAG_ARGLIST, SPIFOPT_FLAG_ABSTRACT };
+    unsigned long want = TYPE[kind] | (is_pp ? SPIFOPT_FLAG_PREPARSE : 0);
+    void *wantp = kind == 0 ? (void *) &d_flags : (kind == 1 ? (void *) &d_int : (kind == 2 ? (void *) &d_str : (kind == 3 ? (void *) &d_args : (void *) d_handler)));
+    if (one[0].flags != want) FAIL(shape, "model:entry-flags", shape, "the entry has flags 0x%lx, the name of the macro promises 0x%lx", (unsigned long) one[0].flags, want);
+    if (one[0].short_opt != (is_long ? 0 : 'o') || !one[0].long_opt || strcmp((char *) one[0].long_opt, "opt")) FAIL(shape, "model:entry-names", shape, "short form %d, long form %s", (int) one[0].short_opt, one[0].long_opt ? (char *) one[0].long_opt : "NULL");
+    if ((void *) one[0].value != wantp || one[0].mask != (kind == 0 ? 0x4UL : 0UL)) FAIL(shape, "model:entry-target", shape, "value pointer or mask differ from the macro's arguments");
+    if (shortform && is_long) { mc_nontrivial(); return; }
+    d_flags = 0xf0; d_int = 0; d_str = NULL; d_args = NULL; d_calls = 0;
+    char *orig[3]; int ac = 0; orig[ac++] = mc_heapstr("prog"); if (shortform) { orig[ac++] = mc_heapstr("-o"); orig[ac++] = mc_heapstr("1"); } else orig[ac++] = mc_heapstr("--opt=1");
+    char **argv = malloc(sizeof(char *) * (size_t) (ac + 1)); memcpy(argv, orig, sizeof(char *) * (size_t) ac); argv[ac] = NULL;
+    SPIFOPT_OPTLIST_SET(one); SPIFOPT_NUMOPTS_SET(1); SPIFOPT_ALLOWBAD_SET(9); SPIFOPT_BADOPTS_SET(0); SPIFOPT_HELPHANDLER_SET(help_stub);
+    spifopt_settings.flags = 0;
+    if (pp_pass) SPIFOPT_FLAGS_SET(SPIFOPT_SETTING_PREPARSE);
+    spifopt_parse(ac, argv);
+    int assigned = kind == 0 ? (d_flags == 0xf4) : (kind == 1 ? d_int == 1 : (kind == 2 ? (d_str && !strcmp(d_str, "1")) : (kind == 3 ? (d_args && d_args[0] && !strcmp(d_args[0], "1")) : d_calls == 1)));
+    int untouched = d_flags == 0xf0 && d_int == 0 && d_str == NULL && d_args == NULL && d_calls == 0;
+    if (pp_pass == is_pp ? !assigned : !untouched) FAIL("spifopt_parse", pp_pass == is_pp ? "model:not-assigned-in-its-pass" : "model:assigned-in-the-other-pass", shape, "%s option in a %s pass: flags=0x%lx int=%d str=%s list=%s handler calls=%d",
+                                                        is_pp ? "a pre-parse" : "a normal", pp_pass ? "pre-parse" : "normal", d_flags, d_int, d_str ? d_str : "unset", d_args ? "set" : "unset", d_calls);
+    if (d_str) FREE(d_str); if (d_args) { for (int i = 0; d_args[i]; i++) FREE(d_args[i]); FREE(d_args); }
+    for (int i = 0; i < ac; i++) free(orig[i]);
+    free(argv);
+    mc_nontrivial();
+    mc_outcome(idx * 3 + (uint64_t) assigned);
+}
+
 int main(int argc, char **argv)
 {
     mc_init("C08", argc, argv);
@@ -306,5 +357,6 @@ int main(int argc, char **argv)
     for (g_k = 0; g_k <= K; g_k++) if (!mc_e2_level("wellformed", g_k, lines_of(g_k), a_case, a_desc, NULL)) break;
     for (g_k = 0; g_k <= N; g_k++) if (!mc_e2_level("hostile", g_k, mc_words_of_len(NTOK, g_k) * 4, b_case, b_desc, NULL)) break;
     mc_e2_level("bundles", 1, (uint64_t) NBUN * 8, c_case, c_desc, NULL);
+    mc_e2_level("constructors", 1, 20 * 4, d_case, d_desc, NULL);
     return mc_finish();
 }
